@@ -233,6 +233,54 @@ CHECKS = {
                       "lock stays held, nothing outside the unit directories is touched.",
         "level_note": _TRUST,
     },
+    "C03": {
+        "pkgs": ["./pkg/netceptor", "./pkg/utils"],
+        "bounds": "one relay direction with any script of <= 3 reads of 0..2 arbitrary bytes each (data together with EOF/error allowed) into a "
+                  "destination whose 1st or 2nd write may come up short or fail; both directions through BridgeConns with 0..2 bytes each; Conn "
+                  "read/write/close delegation with <= 3 bytes; acceptor first-byte check for every first byte value",
+        "no_native": ["Verif_C03_accept_first_byte"],
+        "assumptions": ["quic-go provides a reliable ordered stream (its behaviour under loss, duplication, reordering and re-routing is TRUSTED, not decided)"],
+        "outside": ["QUIC reliability, congestion control and path changes (quic-go)", "multi-hop loss schedules", "streams longer than the bound",
+                    "controlsvc connect / tcp_proxy end-to-end runs (they use BridgeConns, which is decided)"],
+        "level_text": "Bounded symbolic execution of the glue receptor adds around QUIC streams: utils.bridgeHalf / BridgeConns relay exactly the bytes "
+                      "read, in order, and propagate end-of-stream only after the last byte; Conn hands reads/writes through and half-closes; the "
+                      "acceptor admits exactly the streams that start with the marker byte the dialler writes. The stream's own reliability is quic-go's.",
+        "level_note": _TRUST + " For this property the claim is deliberately narrow: the reliable-pipe behaviour itself rests on quic-go.",
+    },
+    "C09": {
+        "pkgs": ["./pkg/netceptor"],
+        "bounds": "0..2 presented certificates (each parsing or not) x 0..2 pins of length {28,32,48,64,5,0,33} with arbitrary bytes x chain verdict x "
+                  "receptor names {decode error, none, [ex], [ot], [ot,ex,e]} x DNS/receptor mode x server/client/invalid role x expected name "
+                  "{ex, empty}; client profile {insecure or not, pin or not} x mode; mutual-TLS listener with claimed node in {N, NN, N:x, C:N, :, N:} "
+                  "x certificate name in 8 values x pin or not",
+        "no_native": ["Verif_C09_verify_decision", "Verif_C09_client_config", "Verif_C09_listener_peer_identity"],
+        "assumptions": ["crypto/x509 (ParseCertificate, Certificate.Verify, CertPool), crypto/tls (Config.Clone), sha256/sha512 and utils.ReceptorNames are "
+                        "verdict models: their answers are free variables, the arguments receptor passes to them are captured and checked",
+                        "QUIC transport stubbed for the listener harness (only the TLS configuration it receives is used)"],
+        "outside": ["correctness of x509 path building, expiry and key-usage evaluation", "the TLS handshake itself", "hash collision resistance",
+                    "decoding of the receptor name extension (C20)"],
+        "level_text": "Bounded symbolic execution of ReceptorVerifyFunc, GetClientTLSConfig and the per-client configuration of the mutual-TLS stream "
+                      "listener: the verifier accepts iff every condition holds (certificates present and parsing, pins legal and one matching, chain "
+                      "verdict, expected node ID among the receptor names), asks the chain verifier the right question for the role, built-in "
+                      "verification is only replaced together with it, and a listener checks the certificate against the node the packets claim.",
+        "level_note": _TRUST,
+    },
+    "C17": {
+        "pkgs": ["./pkg/netceptor"],
+        "bounds": "a datagram socket (advertising or not) closed 1-3 times, then a late packet, then re-binding the name, then node shutdown; two "
+                  "deliveries + close (+ optional reader) on one socket under every schedule with 2 pre-emptions; one stream dial over a stubbed QUIC "
+                  "transport failing at the handshake / at stream opening / succeeding and then closed in 4 different orders",
+        "no_native": ["Verif_C17_dial_releases_socket"],
+        "schedule_harnesses": ["Verif_C17_close_vs_deliveries"],
+        "assumptions": ["quic-go replaced by stubs in the dial harness (connection context ends when CloseWithError is called or the harness ends it)"],
+        "outside": ["goroutines inside quic-go", "growth over long histories (per-operation release is decided)", "shutdown of backends",
+                    "more than two concurrent deliverers or more than 2 pre-emptions"],
+        "level_text": "Bounded symbolic execution of PacketConn.Close / ListenPacket(AndAdvertise) / StartUnreachable / the delivery select of "
+                      "handleMessageData / RemoveLocalServiceAdvertisement / DialContext with schedule exploration: repeated close and close racing "
+                      "with deliveries never panic, every deliverer returns, the service name is released and can be bound again, helper goroutines "
+                      "stop at shutdown, and a dial releases its ephemeral socket on every failure path and after the connection is closed.",
+        "level_note": _TRUST,
+    },
     "C10": {
         "pkgs": ["./pkg/netceptor"],
         "bounds": "step lemma for all 256 budgets, arbitrary routing table (no route / via B / via C / via unconnected X) for source and "
